@@ -1,4 +1,5 @@
 import ZapVerif.Drv.CoreIO
+import ZapVerif.Drv.C10
 namespace ZapVerif.Drv.C06
 open Lean ZapVerif ZapVerif.Drv ZapVerif.Cores ZapVerif.Drv.CoreIO
 
@@ -18,7 +19,20 @@ def countById (ids : List Nat) : List (Nat × Nat) :=
     | some (i, n) => if i = p.1 then acc.dropLast ++ [(i, n + 1)] else acc ++ [(p.1, 1)]
     | none => [(p.1, 1)]) []
 
+/-- op "failterm": a terminal-level call over cores whose sinks fail (Model/Deliver.ceWrite) -/
+def handleFail (op : Json) : R Json := do
+  let c ← ZapVerif.Drv.C10.parseCore (← fld op "core")
+  let l := intD op "l" 0
+  let after := l == 4 || l == 5 || (l == 3 && boolD op "dev" false)
+  let evs := Deliver.ceWrite c after
+  let wrote := evs.filterMap fun | .wrote i => some i | _ => none
+  let errLines := (evs.filter (· == .errLine)).length
+  let term := evs.getLast? == some Deliver.DEv.term
+  return obj [("delivered", jarr jnat wrote), ("errorLines", jnat errLines), ("terminal", jbool term),
+              ("deliveredAtTerminal", jarr jnat (if term then wrote else []))]
+
 def handle (op : Json) : R Json := do
+  if strD op "k" "" == "failterm" then return ← handleFail op
   let ts ← (arrD op "atomics").toList.mapM (fun j => j.getInt?)
   let μ : Val := fun _ => 0
   let σ := storeOf ts
